@@ -176,9 +176,101 @@ func (vc *VC) Query(o *Obligation) string {
 		b.WriteString("\n")
 	}
 	b.WriteString("(assert " + o.Guard + ")\n")
-	b.WriteString("(assert (not " + o.Goal + "))\n")
+	decls, body := skolemizeGoal(o.Goal)
+	b.WriteString(decls)
+	b.WriteString("(assert (not " + body + "))\n")
 	b.WriteString("(check-sat)\n")
 	return b.String()
+}
+
+// skolemizeGoal: a goal (forall (binders) body) is refuted by one counterexample: the bound variables (whose
+// names are unique in the query) become fresh constants. Solvers do this internally, but only after
+// preprocessing; doing it here makes the ground terms of the goal available to E-matching from the start.
+func skolemizeGoal(goal string) (string, string) {
+	decls := ""
+	for strings.HasPrefix(goal, "(forall (") {
+		// binder list
+		i := len("(forall (")
+		depth := 1
+		j := i
+		for ; j < len(goal) && depth > 0; j++ {
+			switch goal[j] {
+			case '(':
+				depth++
+			case ')':
+				depth--
+			}
+		}
+		binders := goal[i : j-1]
+		rest := strings.TrimSpace(goal[j : len(goal)-1])
+		// each binder is (name sort), sort possibly parenthesised
+		k := 0
+		ok := true
+		var ds []string
+		for k < len(binders) {
+			for k < len(binders) && binders[k] == ' ' {
+				k++
+			}
+			if k >= len(binders) {
+				break
+			}
+			if binders[k] != '(' {
+				ok = false
+				break
+			}
+			d := 0
+			st := k
+			for ; k < len(binders); k++ {
+				if binders[k] == '(' {
+					d++
+				} else if binders[k] == ')' {
+					d--
+					if d == 0 {
+						k++
+						break
+					}
+				}
+			}
+			one := binders[st+1 : k-1]
+			sp := strings.Index(one, " ")
+			if sp < 0 {
+				ok = false
+				break
+			}
+			ds = append(ds, fmt.Sprintf("(declare-fun %s () %s)\n", one[:sp], strings.TrimSpace(one[sp+1:])))
+		}
+		if !ok {
+			break
+		}
+		// strip a pattern annotation: (! body :pattern ...)
+		if strings.HasPrefix(rest, "(! ") {
+			inner := rest[3:]
+			d := 0
+			end := -1
+			for x := 0; x < len(inner); x++ {
+				if inner[x] == '(' {
+					d++
+				} else if inner[x] == ')' {
+					d--
+					if d == 0 {
+						end = x + 1
+						break
+					}
+				}
+			}
+			if end < 0 {
+				break
+			}
+			if inner[0] != '(' {
+				// atom body
+				end = strings.Index(inner, " ")
+			}
+			rest = inner[:end]
+		}
+		decls += strings.Join(ds, "")
+		goal = rest
+	}
+	return decls, goal
 }
 
 // CoverQuery: satisfiable iff the program point is reachable under the assumptions (vacuity guard).
